@@ -61,10 +61,10 @@ def _payload(x):
     return {'l': [_i(v) for v in list.__iter__(x)]}
 
 
-def _views(p, inst, log, ret, err, universe, check, kind, chg=True):
+def _views(p, inst, log, ret, err, universe, check, kind, chg=True, held=True):
     obs = {'list': [_i(v) for v in list.__iter__(p.objects)], 'items': [[k, _i(v)] for k, v in p.objects.items()],
            'names': [[k, _i(v)] for k, v in p.names.items()], 'range': [[k, _i(v)] for k, v in p.get_range().items()],
-           'ret': ret, 'err': err, 'notifs': [list(x) for x in log], 'accepts': [], 'chg': chg}
+           'ret': ret, 'err': err, 'notifs': [list(x) for x in log], 'accepts': [], 'chg': chg, 'held': held}
     if check:
         acc = []
         for v in universe:
@@ -110,24 +110,28 @@ def run_impl(case):
             return nchanged[0] == want
         check, U = decl['check_on_set'], case['universe']
         out = {'init': _views(p, inst, log, None, None, U, check, kind), 'steps': []}
+        hold = bool(case.get('hold'))
+        view = p.objects
         for op in case['ops']:
             del log[:]
             del raw[:]
             nchanged[0] = 0
             ret = err = None
             o = op['op']
+            if not hold:
+                view = p.objects      # a fresh view per call; otherwise one view object serves all the calls
             try:
                 if o == 'setIdx':
-                    p.objects[op['i']] = _o(op['o'])
+                    view[op['i']] = _o(op['o'])
                 elif o == 'setKey':
-                    p.objects[op['k']] = _o(op['o'])
+                    view[op['k']] = _o(op['o'])
                 elif o == 'append':
-                    p.objects.append(_o(op['o']))
+                    view.append(_o(op['o']))
                 elif o == 'insert':
-                    p.objects.insert(op['i'], _o(op['o']))
+                    view.insert(op['i'], _o(op['o']))
                 elif o == 'extend':
                     os_ = [_o(v) for v in op['os']]
-                    p.objects.extend(iter(os_) if op.get('iter') else os_)      # any iterable, as list.extend
+                    view.extend(iter(os_) if op.get('iter') else os_)      # any iterable, as list.extend
                 elif o == 'update':
                     nkw = op.get('nkw', 0)        # the last nkw pairs are passed as keyword items
                     pos, kw = op['kvs'][:len(op['kvs']) - nkw], op['kvs'][len(op['kvs']) - nkw:]
@@ -138,17 +142,17 @@ def run_impl(case):
                         # any Mapping is a mapping (dict.update's contract), not only dict
                         import collections
                         arg = dict(arg) if op['mapping'] == 'dict' else collections.UserDict(dict(arg))
-                    p.objects.update(arg, **{k: _o(v) for k, v in kw})
+                    view.update(arg, **{k: _o(v) for k, v in kw})
                 elif o == 'popIdx':
-                    ret = p.objects.pop(op['i']) if not op.get('default') else p.objects.pop()
+                    ret = view.pop(op['i']) if not op.get('default') else view.pop()
                 elif o == 'popKey':
-                    ret = p.objects.pop(op['k'])
+                    ret = view.pop(op['k'])
                 elif o == 'popKeyD':
-                    ret = p.objects.pop(op['k'], _o(op['d']))
+                    ret = view.pop(op['k'], _o(op['d']))
                 elif o == 'remove':
-                    p.objects.remove(_o(op['o']))
+                    view.remove(_o(op['o']))
                 elif o == 'clear':
-                    p.objects.clear()
+                    view.clear()
                 elif o == 'replaceList':
                     p.objects = [_o(v) for v in op['os']]
                 elif o == 'replaceDict':
@@ -168,7 +172,13 @@ def run_impl(case):
             elif ret is not None:
                 return {'crash': f'{o} returned {ret!r}'}
             ok = chg_ok()           # before the probe assignments of _views
-            out['steps'].append(_views(p, inst, list(log), ret, err, U, check, kind, chg=ok))
+            if o in ('replaceList', 'replaceDict', 'assign') or err is not None:
+                # a wholesale replacement leaves older views behind, so does a value assignment that extends the
+                # objects of a non-checking Selector (neither goes through the view); a failed call may too
+                view = p.objects
+            held_ok = [v for v in list.__iter__(view)] == [v for v in list.__iter__(p.objects)] and \
+                all(a is b for a, b in zip(list.__iter__(view), list.__iter__(p.objects)))
+            out['steps'].append(_views(p, inst, list(log), ret, err, U, check, kind, chg=ok, held=held_ok))
         return out
     except Exception as e:  # the views themselves blew up: report, do not hide
         return {'crash': f'{type(e).__name__}: {e}'[:300]}
@@ -336,10 +346,13 @@ def cases(rng, tier, worker, nworkers):
             for combo in itertools.product(*[_alphabet(style, pos) for pos in range(n)]):
                 i += 1
                 if i % nworkers == worker:
-                    yield _mk(kind, decl, [dict(o) for o in combo])
+                    c = _mk(kind, decl, [dict(o) for o in combo])
+                    # every second sequence of two or more calls goes through one and the same view object
+                    yield dict(c, hold=True) if n > 1 and i % 2 else c
     n_random = 1500 if tier == 'quick' else 200000 // nworkers
-    for _ in range(n_random):
-        yield _random_case(rng)
+    for j in range(n_random):
+        c = _random_case(rng)
+        yield dict(c, hold=True) if j % 2 else c
 
 
 def compare(impl, model):
@@ -358,6 +371,7 @@ def compare(impl, model):
 
 def tags(case, impl):
     t = [case['kind'], 'dict-declared' if case['decl']['names'] is not None else 'list-declared',
+         'view:held' if case.get('hold') else 'view:fresh',
          f'len={min(len(case["ops"]), 10)}' + ('+' if len(case['ops']) >= 10 else '')]
     if isinstance(impl, dict) and 'steps' in impl:
         for op, st in zip(case['ops'], impl['steps']):
